@@ -7,10 +7,10 @@ git checkout -q -- . ; : > $L
 git apply $O/mutant$k.diff || { echo "APPLY FAILED" >> $L; exit 2; }
 make -j8 >/dev/null 2>&1
 make -j8 check 2>&1 | grep -E "^# (TOTAL|PASS|FAIL|ERROR)" | tr '\n' ' ' >> $L; echo >> $L
-gcc -O2 -I$W $O/demo$k.c $W/.libs/libm4ri.a -lm -lpng16 -lpthread -o $O/demo$k.bin >> $L 2>&1
+gcc -O2 -I$W $O/demo$k.c $W/.libs/libm4ri.a -lm -lpng16 -lpthread $EXTRA -o $O/demo$k.bin >> $L 2>&1
 ( cd $O && timeout 600 ./demo$k.bin > $O/demo$k.mut.out 2>&1 ); echo "demo with change: exit $?" >> $L
 git checkout -q -- . ; make -j8 >/dev/null 2>&1
-gcc -O2 -I$W $O/demo$k.c $W/.libs/libm4ri.a -lm -lpng16 -lpthread -o $O/demo$k.bin >> $L 2>&1
+gcc -O2 -I$W $O/demo$k.c $W/.libs/libm4ri.a -lm -lpng16 -lpthread $EXTRA -o $O/demo$k.bin >> $L 2>&1
 ( cd $O && timeout 600 ./demo$k.bin > $O/demo$k.clean.out 2>&1 ); echo "demo without change: exit $?" >> $L
 rm -f $O/demo$k.bin
 cat $L
